@@ -2,6 +2,7 @@ package props
 
 import (
 	"fmt"
+	"github.com/gobuffalo/plush/v5/vtick"
 	"html/template"
 	"sort"
 	"strings"
@@ -308,7 +309,7 @@ func init() {
 			return s
 		},
 		Run:  c08Run,
-		Rule: "iterables: []int, []string, []interface{}, [n]int, *[]int, *[n]int, arrays whose elements are all zero values, array literal, map[string]int, map[int]string, *map, hash literal, range/between/until, custom Iterator, groupBy, each at every length 0..3 (4 thorough); nil / nil slice / nil map / nil pointer to a slice, array, map or Iterator (render nothing), nil pointer to a struct, int or pointer and int/string/struct/func (must be an error). bodies: every sequence of <=3 (4 thorough) statements over 19 items (emit literal/value/key, if+break, if+continue, emit-then-break, nested-if break, bare break/continue, return, let+emit, inner loop plain/with break/with continue/silent, fn literal, inner loops over an Iterator / a slice / nil that re-use the outer loop's variable names) in two tag layouts (one statement per tag; adjacent code tags merged) and 4 placements. Oracle: a reference interpreter over the body gives the expected text for ordered iterables; for maps every iteration starts with a sentinel+key, the observed visiting order must be a permutation (prefix when a break fires) of the entries and the reference run in that order must reproduce the output exactly; maps are additionally rendered under every forced rotation of Go's map iteration order (runtime hook). Helper blocks: break / continue (bare, inside if, inside nested if with text) inside the block of a block helper (one that runs its block with Block(), one that uses BlockWith(help.New()), and the default block of contentOf) called (emitting or silently, nested 1-2 deep) in the loop body, every hit position: the helper receives the block's text up to the control statement, the call's own result is kept and the loop is broken / continued there. Nil and falsy elements: []interface{} / [3]interface{} / map with nil elements in every position (bound as nil, also when an enclosing loop or variable uses the same names), Iterators and slices yielding \"\", false, 0 and empty HTML (visited like any other element). Reruns: loops whose iterable is a literal / range built from an outer loop variable or a parameter, run several times in one execution (nested 2-3 deep, in a function called repeatedly, over a slice modified between runs): every run visits its current iterable; an iterator held in a variable and resumed by a later or nested loop after a break continues with the element after the last one visited. Control-free bodies are also checked by unrolling (body rendered per element with let-bound loop variables). Non-trivial: length>=2 and body contains a control statement or inner loop.",
+		Rule: "iterables: []int, []string, []interface{}, [n]int, *[]int, *[n]int, arrays whose elements are all zero values, array literal, map[string]int, map[int]string, *map, hash literal, range/between/until, custom Iterator, groupBy, each at every length 0..3 (4 thorough); nil / nil slice / nil map / nil pointer to a slice, array, map or Iterator (render nothing), nil pointer to a struct, int or pointer and int/string/struct/func (must be an error). bodies: every sequence of <=3 (4 thorough) statements over 19 items (emit literal/value/key, if+break, if+continue, emit-then-break, nested-if break, bare break/continue, return, let+emit, inner loop plain/with break/with continue/silent, fn literal, inner loops over an Iterator / a slice / nil that re-use the outer loop's variable names) in two tag layouts (one statement per tag; adjacent code tags merged) and 4 placements. Oracle: a reference interpreter over the body gives the expected text for ordered iterables; for maps every iteration starts with a sentinel+key, the observed visiting order must be a permutation (prefix when a break fires) of the entries and the reference run in that order must reproduce the output exactly; maps are additionally rendered under every forced rotation of Go's map iteration order (runtime hook). Helper blocks: break / continue (bare, inside if, inside nested if with text) inside the block of a block helper (one that runs its block with Block(), one that uses BlockWith(help.New()), and the default block of contentOf) called (emitting or silently, nested 1-2 deep) in the loop body, every hit position: the helper receives the block's text up to the control statement, the call's own result is kept and the loop is broken / continued there. Nil and falsy elements: []interface{} / [3]interface{} / map with nil elements in every position (bound as nil, also when an enclosing loop or variable uses the same names), Iterators and slices yielding \"\", false, 0 and empty HTML (visited like any other element). Reruns: loops whose iterable is a literal / range built from an outer loop variable or a parameter, run several times in one execution (nested 2-3 deep, in a function called repeatedly, over a slice modified between runs): every run visits its current iterable; loops over 1000 .. 70000 elements (until, range, slice) visit every element; an iterator held in a variable and resumed by a later or nested loop after a break continues with the element after the last one visited. Control-free bodies are also checked by unrolling (body rendered per element with let-bound loop variables). Non-trivial: length>=2 and body contains a control statement or inner loop.",
 		Bound: func(th bool) string {
 			if th {
 				return "lengths 0..4, body sequences <=4"
@@ -612,6 +613,30 @@ func c08Special(t *engine.T) {
 		{"outer variable reassigned between two runs of one loop", `<% let f = fn(lst) { %><%= for (y) in lst { %><%= y %>,<% } %><% } %><%= f([1]) %>|<%= f([2, 3]) %>|<%= f([]) %>|<%= f(["a"]) %>`, "1,|2,3,||a,"},
 		{"slice variable whose elements change between runs", `<% let a = [1, 2] %><%= for (r) in [0, 1] { %><%= for (y) in a { %><%= y %>,<% } %><% a[0] = 9 %>;<% } %>`, "1,2,;9,2,;"},
 		{"literal of three nested levels", `<%= for (x) in [1, 2] { %><%= for (y) in [x * 10, x * 10 + 1] { %><%= for (z) in [y, y + 100] { %><%= z %>,<% } %><% } %>;<% } %>`, "10,110,11,111,;20,120,21,121,;"},
+	}
+	// size does not matter: every element of a long Iterator / slice is visited
+	for _, n := range []int{1000, 65535, 65536, 65537, 70000} {
+		n := n
+		t.Case(fmt.Sprintf("rerun long loops n=%d", n), true, func() (string, *engine.Fail) {
+			vtick.Reset(400_000_000)
+			ctx := mk()
+			cnt, sum := 0, 0
+			ctx.Set("cnt", func(v int) string { cnt++; sum += v; return "" })
+			big := make([]int, n)
+			for i := range big {
+				big[i] = 1
+			}
+			ctx.Set("big", big)
+			ctx.Set("n", n)
+			out, err := Render(`<%= for (k, v) in until(n) { %><% cnt(v) %><% } %>|<%= for (v) in range(1, n) { %><% cnt(0) %><% } %>|<%= for (k, v) in big { %><% cnt(0) %><% } %>`, ctx)
+			if err != nil || out != "||" {
+				return "", engine.Failf("mismatch", "expected \"||\", got %q / %v", out, err)
+			}
+			if cnt != 3*n || sum != n*(n-1)/2 {
+				return "", engine.Failf("mismatch", "three loops over %d elements visited %d elements in all (sum of the first %d, expected %d)", n, cnt, sum, n*(n-1)/2)
+			}
+			return "rerun", nil
+		})
 	}
 	// an iterator that outlives its loop: a loop that breaks has taken exactly the elements it visited
 	t.Case("rerun a broken-off loop leaves the rest of its iterator", true, func() (string, *engine.Fail) {
